@@ -348,7 +348,7 @@ class SpawnLaunch(Contract):
         env = b.opt('self.env', lambda: b.obj('env', 'iface:env', sealed=True))
         sp = b.obj('self', PTYS, sealed=False, env=env, cwd=b.opt('cwd', lambda: b.str('cwd', 's')),
                    echo=b.bool('echo'), ignore_sighup=b.bool('ignore_sighup'),
-                   encoding=b.none() if kind == 'b' else b.const('utf-8'), pid=b.none(),
+                   encoding=b.none() if kind == 'b' else b.const('utf-8'), codec_errors=b.str('codec_errors', 's'), pid=b.none(),
                    args=b.none(), command=b.none(), name=b.any('name0'))
         for k in ('consulted', 'PATH', 'entries', 'split_of'):
             b.ghost(k, None)
